@@ -3,7 +3,7 @@ from __future__ import annotations
 
 import ast
 
-from sa.loader import norm, norm1, walk_shallow, own_nodes, call_name
+from sa.loader import recv, norm, norm1, walk_shallow, own_nodes, call_name
 from sa.rulekit import nodes_where, node_calls, own
 
 CONN_MUTATORS = ('add', 'update', 'discard', 'remove', 'clear', 'pop', 'difference_update',
@@ -14,18 +14,18 @@ def wiring_rules(ck, R8):
     prog = ck.prog
     fz = prog.func('simulator:Circuit._finalize')
     gf = ck.cfg(fz.fid, 'M0')
-    ic = nodes_where(gf, lambda n: any(call_name(c) == 'add' and norm(c.func.value).endswith('.iconnections')
+    ic = nodes_where(gf, lambda n: any(call_name(c) == 'add' and recv(c).endswith('.iconnections')
                                        for c in node_calls(n)))
-    oc = nodes_where(gf, lambda n: any(call_name(c) == 'add' and norm(c.func.value).endswith('.oconnections')
+    oc = nodes_where(gf, lambda n: any(call_name(c) == 'add' and recv(c).endswith('.oconnections')
                                        for c in node_calls(n)))
     ok = len(ic) == 1 and len(oc) == 1
     if ok:
         i_c = node_calls(ic[0], 'add')[0]
         o_c = node_calls(oc[0], 'add')[0]
-        x = norm(i_c.func.value)[:-len('.iconnections')]      # blk
+        x = recv(i_c)[:-len('.iconnections')]      # blk
         y = norm(i_c.args[0])                                  # inp
-        recv = norm(o_c.func.value)[:-len('.oconnections')]
-        ok = norm(o_c.args[0]) == x and recv in (y, f"self._blocks[{y}.name]") and \
+        o_recv = recv(o_c)[:-len('.oconnections')]
+        ok = norm(o_c.args[0]) == x and o_recv in (y, f"self._blocks[{y}.name]") and \
             gf.guard_texts(ic[0]) == gf.guard_texts(oc[0]) and \
             gf.has_guard(ic[0], f'isinstance({y}, block.Const)', False)
         # same basic block: each is reached iff the other is
@@ -44,7 +44,7 @@ def wiring_rules(ck, R8):
         inner = max(loops, key=lambda n: n.id) if loops else None
         coll = norm(inner.ast.iter) if inner is not None else None
         ext = nodes_where(gf, lambda n: any(call_name(c) in ('extend', 'append') and
-                                            norm(c.func.value) == coll for c in node_calls(n)))
+                                            recv(c) == coll for c in node_calls(n)))
         tup_true = [n for n in ext if any('tuple' in t and p for t, p in gf.guard_texts(n))]
         tup_false = [n for n in ext if any('tuple' in t and not p for t, p in gf.guard_texts(n))]
         wb = nodes_where(gf, lambda n: isinstance(n.ast, ast.Assign) and
